@@ -53,6 +53,25 @@ fn merged(a: &Hll8, b: &Hll8) -> Hll8 {
     x
 }
 
+/// The same merge with the left operand living at an address that is `k` bytes past an 8-byte boundary (a sketch
+/// is a plain byte array and may sit anywhere inside a larger record).
+fn merged_at_misalignment(a: &Hll8, b: &Hll8, k: usize) -> Hll8 {
+    #[repr(C, align(8))]
+    struct Slab {
+        pad: [u8; 8],
+        room: [Hll8; 2],
+    }
+    let mut slab = Box::new(Slab { pad: [0; 8], room: [Hll8::new(), Hll8::new()] });
+    let base = slab.room.as_mut_ptr() as *mut u8;
+    // SAFETY: Hll8 is a 256-byte array of u8 (alignment 1); base+k .. base+k+256 lies inside `room` (512 bytes)
+    unsafe {
+        let p = base.add(k % 8) as *mut Hll8;
+        p.write(*a);
+        *p += *b;
+        p.read()
+    }
+}
+
 /// splitmix64 -> deterministic uniform bytes (the seed comes from the proptest RNG)
 fn prng_elems(seed: u64, n: usize) -> Vec<[u8; 32]> {
     let mut s = seed;
@@ -225,6 +244,31 @@ impl Prop for C20 {
                     // merging with the empty sketch is the identity
                     if regs(&merged(&hu, &Hll8::new())) != regs(&hu) {
                         return e("empty-not-identity", String::new());
+                    }
+                    // a left operand whose only non-zero registers are among the first / last few, at every placement;
+                    // expected registers computed here (byte-wise maximum of the two hex dumps)
+                    // (one case in six: 96 boxed merges are not free)
+                    let sparse: &[usize] = if u.len() % 6 == 0 { &[0usize, 1, 3, 6, 7, 8, 247, 248, 249, 252, 254, 255] } else { &[] };
+                    for (n, bucket) in sparse.iter().enumerate() {
+                        let mut r = [0u8; 256];
+                        r[*bucket] = 1 + (n as u8 % 5);
+                        let left = Hll8::from_hex_string(&hex(&r)).map_err(|x| ("hex-import-failed".to_string(), x.to_string()))?;
+                        let other = crate::model::unhex(&regs(&hb)).unwrap_or_default();
+                        let want: Vec<u8> = r.iter().zip(other.iter()).map(|(x, y)| *x.max(y)).collect();
+                        for k in 0..8 {
+                            if regs(&merged_at_misalignment(&left, &hb, k)) != hex(&want) {
+                                return e("merge-loses-registers", format!("left operand has only register {bucket} set and lies {k} bytes past an 8-byte boundary"));
+                            }
+                        }
+                    }
+                    // ... from either side, and wherever the sketches happen to lie in memory
+                    for k in 0..8 {
+                        if regs(&merged_at_misalignment(&Hll8::new(), &hu, k)) != regs(&hu) {
+                            return e("merge-into-empty-differs", format!("left operand {k} bytes past an 8-byte boundary"));
+                        }
+                        if regs(&merged_at_misalignment(&ha, &hb, k)) != regs(&merged(&ha, &hb)) {
+                            return e("merge-depends-on-address", format!("left operand {k} bytes past an 8-byte boundary"));
+                        }
                     }
                     // hex round trip
                     let back = Hll8::from_hex_string(&regs(&hu)).map_err(|x| ("hex-import-failed".to_string(), x.to_string()))?;
